@@ -254,8 +254,8 @@ theorem stepT_slack {cfg : Cfg} (s : State) (op : Op) (a q : Nat) (d : Denom) (K
       cases hd : withdrawReq cfg s a' u p pc e with
       | none => simp [hd] at h
       | some r => obtain ⟨s1, id⟩ := r; simp [hd] at h; subst h; exact same (gs_withdrawReq hd)
-    | order a' u p t b mo mp pr am l e => exact same (gs_placeOrder h)
-    | mmOrder a' u p bs ss l e => exact same (gs_mmOrder h)
+    | order a' u p t b od dd mo mp am l => obtain ⟨_, _, h⟩ := placeOrderMsg_core h; exact same (gs_placeOrder h)
+    | mmOrder a' u p xs ns sa xb nb ba l => obtain ⟨_, _, h⟩ := mmOrderMsg_core h; exact same (gs_mmOrder h)
     | cancel a' u p i => exact same (gs_cancelOrder h)
     | cancelAll a' u ps => exact same (gs_cancelAll h)
     | cancelMM a' u p => exact same (gs_cancelMM h)
@@ -268,6 +268,7 @@ theorem stepT_slack {cfg : Cfg} (s : State) (op : Op) (a q : Nat) (d : Denom) (K
       simp only [lostOf, Nat.add_zero]
       exact this
     | beginBlock a' => simp only [step, Option.some.injEq] at h; subst h; exact same (GhostSame.of_bank rfl)
+    | migrate => exact same (gs_migrate h)
 
 theorem lostOf_cons (a p : Nat) (op : Op) (ops : List Op) : lostOf a p (op :: ops) = lostOf a p [op] + lostOf a p ops := by
   cases op <;> simp [lostOf]
